@@ -1894,10 +1894,12 @@ func (n *node) registerEvent(
 		event.last = lib.NewQueueLimitMPSC(int64(options.Buffer), true)
 	}
 
+	// the token must be in place before the record becomes visible in the table:
+	// RouteSendEvent compares it without any synchronization
+	event.token = n.MakeRef()
 	if _, exist := n.events.LoadOrStore(ev, event); exist {
 		return token, gen.ErrTaken
 	}
-	event.token = n.MakeRef()
 	return event.token, nil
 }
 
